@@ -58,3 +58,36 @@ Check braid_state_fast_eq :
   forall facts (eval : cmd -> facts -> outcome facts) empty g hs,
     braid_state_with facts eval empty braid_fast g hs = braid_state facts eval empty g hs.
 Print Assumptions braid_state_fast_eq.
+
+(** Structural properties of the braid used by the head-set collapse (C04). *)
+From Aranya Require Import proofs.BraidKey proofs.BraidMerge.
+
+(** The braid depends on the heads only as a set (order and multiplicity are irrelevant). *)
+Theorem braid_heads_perm : braid_heads_perm_stmt.
+Proof. exact braid_heads_perm_proof. Qed.
+Check braid_heads_perm :
+  forall (g : graph) (hs1 hs2 : list N),
+    wf_graph g -> single_root g -> hs1 <> [] -> incl hs1 (ids g) ->
+    (forall x, In x hs1 <-> In x hs2) ->
+    braid_L1 g hs1 = braid_L1 g hs2
+    /\ forall facts (eval : cmd -> facts -> outcome facts) empty,
+         braid_state facts eval empty g hs1 = braid_state facts eval empty g hs2.
+Print Assumptions braid_heads_perm.
+
+(** Merge transparency: replacing two maximal heads a, b by a fresh merge
+    command of them (pushed at the back of the head list) does not change the
+    braided fact state.  The state stored at the merge command is, by the
+    definition of [state_at], the braid of its parents. *)
+Theorem braid_merge_transparent_L1 : braid_merge_transparent_L1_stmt.
+Proof. exact braid_merge_transparent_L1_proof. Qed.
+Check braid_merge_transparent_L1 :
+  forall (g : graph) (a b mid body : N) (rest : list N),
+    wf_graph g -> single_root g -> ~ In mid (ids g) -> incl (a :: b :: rest) (ids g) ->
+    let m := {| cid := mid; cprio := PMerge; cpar := PMerge2 a b; cbody := body |} in
+    (forall c, parent_of g a c \/ parent_of g b c -> ~ In c (closure g (a :: b :: rest))) ->
+    (forall x, In x (closure g (a :: b :: rest)) -> key_ltb (key_of g x) (PMerge, mid) = true ->
+       key_ltb (key_of g x) (key_of g a) = true /\ key_ltb (key_of g x) (key_of g b) = true) ->
+    braid_L1 g (a :: b :: rest) <> BParFin ->
+    forall facts (eval : cmd -> facts -> outcome facts) empty,
+      braid_state facts eval empty (m :: g) (rest ++ [mid]) = braid_state facts eval empty g (a :: b :: rest).
+Print Assumptions braid_merge_transparent_L1.
